@@ -623,3 +623,14 @@ def c17_layout(ctx, case):
          "in double precision")
 def c17_single(ctx, case):
     _dt.single_body(ctx, case, _dt.TABLES["C17"])
+
+
+# ---- call-form invariance (documented parameter names) ----------------------------
+from vlib import kwcheck as _kw   # noqa: E402
+
+
+@sub("C17.keywords", strategy=_kw.kw_case(_kw.PROPS["C17"]), quick=200, thorough=4000,
+     doc="the same call with its trailing arguments given by their documented names (any split, any order) returns the same "
+         "result as the positional call, and every documented name is accepted: " + ", ".join(_kw.PROPS["C17"]))
+def c17_keywords(ctx, case):
+    _kw.body(ctx, case)
